@@ -2,6 +2,7 @@ import Yaep.Spec.ParseTree
 import Yaep.Spec.Forest
 import Yaep.Lemmas.Analysis
 import Yaep.Model.FreeTree
+import Yaep.Model.ReadGrammar
 /-!
 # Concrete instances used by the non-vacuity `example`s of `Yaep/Props/C02 … C05`
 -/
@@ -12,10 +13,10 @@ namespace C02Ex
 
 def g : Grammar :=
   { rules := [
-      { lhs := 0, rhs := [.n 1, .t 1], order := [some 0, none] },
+      { lhs := 0, rhs := [.n 1, .t 1], transLen := 1, order := [some 0, none] },
       { lhs := 1, rhs := [.n 1, .t 3, .n 1], anode := some "plus", cost := 1, transLen := 3,
         order := [some 0, none, some 2] },
-      { lhs := 1, rhs := [.t 2], order := [some 0] } ],
+      { lhs := 1, rhs := [.t 2], transLen := 1, order := [some 0] } ],
     termNames := ["error", "$eof", "a", "+"], termCodes := [-1, -2, 97, 43],
     ntNames := ["$S", "E"], errT := 0, eofT := 1, axiomN := 0, startN := 1 }
 
@@ -35,6 +36,15 @@ theorem valid : PT.IsDerivation g toks pt :=
     .cons (.node (rl := g.rules[1]) rfl rfl validKids) <| .cons (.leaf rfl) .nil
 
 theorem g_acyclic : ¬ Cyclic g := fun h => absurd (loopSet_ne_nil_of_cyclic g h) (by decide)
+
+/-- `E : 'a' #` (empty translation) -/
+def gNil : Grammar := { g with rules := [{ lhs := 1, rhs := [.t 2], order := [none] }] }
+
+/-- the description `E : E '+' E # plus (0 - 2) | 'a' # 0` as the callbacks deliver it -/
+def rawPlus : RawGrammar :=
+  ⟨[("a", 97), ("+", 43)],
+   [⟨"E", ["E", "+", "E"], some "plus", 1, some [0, NIL_TRANSL, 2]⟩,
+    ⟨"E", ["a"], none, 0, some [0]⟩], false⟩
 
 /-- a grammar with the cycle `A : A`: `$S : A $eof`, `A : A | 'a'` -/
 def gLoop : Grammar :=
